@@ -116,38 +116,39 @@ const (
 
 // NegScript is the server's behaviour on one connection.
 type NegScript struct {
-	Header       int      `json:"header"`
-	Header2      int      `json:"header_after_tls"`
-	Header3      int      `json:"header_after_auth"`
-	StartTLS     int      `json:"starttls"`
-	Mechs        []string `json:"mechs"`
-	MechsTLS     []string `json:"mechs_after_tls,omitempty"` // if set, the list advertised once TLS is up
-	ExtraFeats   bool     `json:"extra_features"`
-	ForeignMechs []string `json:"mechanisms_in_another_namespace,omitempty"` // a <mechanisms/> feature of another protocol (e.g. urn:xmpp:sasl:1) listing these names
-	TLSReply     int      `json:"tls_reply"`
-	Cert         int      `json:"cert"`
-	TLS12        bool     `json:"tls_1_2_only,omitempty"` // the server does not speak TLS 1.3
-	TLS13Only    bool     `json:"tls_1_3_only,omitempty"` // the server refuses anything below TLS 1.3 (alert protocol_version)
-	AuthReply    int      `json:"auth_reply"`
-	AuthCond     string   `json:"auth_cond,omitempty"`
-	ResumeOne    bool     `json:"enabled_resume_spelled_1,omitempty"` // <enabled resume='1'/>: the other legal spelling of an XML boolean
-	AuthFailDrop int      `json:"after_auth_failure,omitempty"`       // after <failure/>: 1 = the server ends the stream and closes, 2 = it resets the connection once the client has read the failure
-	Session      int      `json:"session"`
-	SM           bool     `json:"sm"`
-	Resume       int      `json:"resume_reply"`
-	ResumeAlt    int      `json:"resume_reply_variant,omitempty"`
-	ResumedH     int      `json:"resumed_h,omitempty"`                             // the h of <resumed/>: what the server says it has handled
-	ProbeOnClose bool     `json:"request_before_answering_stream_close,omitempty"` // when the client closes its stream before a session exists, the server first sends an IQ request
-	Bind         int      `json:"bind_reply"`
-	SessionRep   int      `json:"session_reply"`
-	Enable       int      `json:"enable_reply"`
-	SMId         string   `json:"sm_id"`
-	SMLocation   string   `json:"sm_location,omitempty"`
-	Prefixed     bool     `json:"prefixed_syntax"` // harmless syntax variation of success replies
-	Spaces       bool     `json:"whitespace_between"`
-	DelayMs      int      `json:"reply_delay_ms"`
-	StreamID     string   `json:"stream_id"`
-	AutoAckR     bool     `json:"auto_ack"` // answer <r/> like a real server
+	Header          int      `json:"header"`
+	Header2         int      `json:"header_after_tls"`
+	Header3         int      `json:"header_after_auth"`
+	StartTLS        int      `json:"starttls"`
+	Mechs           []string `json:"mechs"`
+	MechsTLS        []string `json:"mechs_after_tls,omitempty"` // if set, the list advertised once TLS is up
+	ExtraFeats      bool     `json:"extra_features"`
+	ForeignMechKids []string `json:"mechanism_children_of_another_namespace,omitempty"` // inside the SASL <mechanisms/>: <x:mechanism xmlns:x='urn:example:other'>NAME</x:mechanism> (an extension, not an offer)
+	ForeignMechs    []string `json:"mechanisms_in_another_namespace,omitempty"`         // a <mechanisms/> feature of another protocol (e.g. urn:xmpp:sasl:1) listing these names
+	TLSReply        int      `json:"tls_reply"`
+	Cert            int      `json:"cert"`
+	TLS12           bool     `json:"tls_1_2_only,omitempty"` // the server does not speak TLS 1.3
+	TLS13Only       bool     `json:"tls_1_3_only,omitempty"` // the server refuses anything below TLS 1.3 (alert protocol_version)
+	AuthReply       int      `json:"auth_reply"`
+	AuthCond        string   `json:"auth_cond,omitempty"`
+	ResumeOne       bool     `json:"enabled_resume_spelled_1,omitempty"` // <enabled resume='1'/>: the other legal spelling of an XML boolean
+	AuthFailDrop    int      `json:"after_auth_failure,omitempty"`       // after <failure/>: 1 = the server ends the stream and closes, 2 = it resets the connection once the client has read the failure
+	Session         int      `json:"session"`
+	SM              bool     `json:"sm"`
+	Resume          int      `json:"resume_reply"`
+	ResumeAlt       int      `json:"resume_reply_variant,omitempty"`
+	ResumedH        int      `json:"resumed_h,omitempty"`                             // the h of <resumed/>: what the server says it has handled
+	ProbeOnClose    bool     `json:"request_before_answering_stream_close,omitempty"` // when the client closes its stream before a session exists, the server first sends an IQ request
+	Bind            int      `json:"bind_reply"`
+	SessionRep      int      `json:"session_reply"`
+	Enable          int      `json:"enable_reply"`
+	SMId            string   `json:"sm_id"`
+	SMLocation      string   `json:"sm_location,omitempty"`
+	Prefixed        bool     `json:"prefixed_syntax"` // harmless syntax variation of success replies
+	Spaces          bool     `json:"whitespace_between"`
+	DelayMs         int      `json:"reply_delay_ms"`
+	StreamID        string   `json:"stream_id"`
+	AutoAckR        bool     `json:"auto_ack"` // answer <r/> like a real server
 }
 
 // ResumeUnreadableReplies are answers to <resume/> that are neither <resumed/> nor <failed/> of
@@ -403,8 +404,18 @@ func (sc *SrvConn) features() string {
 		if sc.TLS && scr.MechsTLS != nil {
 			mechs = scr.MechsTLS
 		}
-		for _, m := range mechs {
+		for i, m := range mechs {
+			if i == 1 {
+				for _, f := range scr.ForeignMechKids {
+					b.WriteString("<x:mechanism xmlns:x='urn:example:other'>" + xmlEscape(f) + "</x:mechanism>")
+				}
+			}
 			b.WriteString("<mechanism>" + xmlEscape(m) + "</mechanism>")
+		}
+		if len(mechs) < 2 {
+			for _, f := range scr.ForeignMechKids {
+				b.WriteString("<x:mechanism xmlns:x='urn:example:other'>" + xmlEscape(f) + "</x:mechanism>")
+			}
 		}
 		b.WriteString("</mechanisms>")
 		if scr.ExtraFeats {
